@@ -143,6 +143,7 @@ def _run_property(ctx):
 
 
 MERGE_MODEL_THEOREMS = []
+THEOREMS.extend(t for t in MERGE_MODEL_THEOREMS if t not in THEOREMS)
 
 
 def run(ctx):
